@@ -250,6 +250,15 @@ func genPod(r *wire.Rng) *corev1.Pod {
 		if r.Chance(1, 4) && len(pod.Spec.Volumes) > 0 {
 			c.VolumeMounts = []corev1.VolumeMount{{Name: pod.Spec.Volumes[0].Name, MountPath: "/user"}}
 		}
+		if r.Chance(1, 5) {
+			c.Ports = []corev1.ContainerPort{{Name: "user-port", ContainerPort: 15099}}
+		}
+		if r.Chance(1, 6) {
+			c.ReadinessProbe = &corev1.Probe{ProbeHandler: corev1.ProbeHandler{HTTPGet: &corev1.HTTPGetAction{Path: "/healthz/ready", Port: intstr.FromInt32(15021)}}, PeriodSeconds: 3}
+		}
+		if r.Chance(1, 8) {
+			c.Args = []string{"proxy", "sidecar", "--log_output_level=default:debug"}
+		}
 		at := r.Intn(len(pod.Spec.Containers) + 1)
 		pod.Spec.Containers = append(pod.Spec.Containers[:at], append([]corev1.Container{c}, pod.Spec.Containers[at:]...)...)
 	}
@@ -324,6 +333,47 @@ func genPod(r *wire.Rng) *corev1.Pod {
 	if r.Chance(1, 12) {
 		ann["sidecar.istio.io/agentLogLevel"] = "debug"
 		ann["sidecar.istio.io/logLevel"] = "trace"
+	}
+	// annotations that move ports / paths the re-invocation logic compares against mesh defaults
+	if r.Chance(1, 5) {
+		ann["status.sidecar.istio.io/port"] = wire.Pick(r, []string{"15025", "15025", "15021", "0", "15020", "8080"})
+	}
+	if r.Chance(1, 8) {
+		ann["readiness.status.sidecar.istio.io/initialDelaySeconds"] = wire.Pick(r, []string{"0", "5", "30"})
+		ann["readiness.status.sidecar.istio.io/periodSeconds"] = wire.Pick(r, []string{"1", "15"})
+		ann["readiness.status.sidecar.istio.io/failureThreshold"] = wire.Pick(r, []string{"1", "10"})
+	}
+	if r.Chance(1, 10) {
+		ann["readiness.status.sidecar.istio.io/applicationPorts"] = wire.Pick(r, []string{"8080", "80,8443", ""})
+	}
+	if r.Chance(1, 10) {
+		ann["prometheus.istio.io/merge-metrics"] = wire.Pick(r, []string{"true", "false"})
+	}
+	if r.Chance(1, 10) {
+		ann["traffic.sidecar.istio.io/includeInboundPorts"] = wire.Pick(r, []string{"*", "80,8080", ""})
+		ann["traffic.sidecar.istio.io/excludeOutboundPorts"] = wire.Pick(r, []string{"3306", "1,2"})
+	}
+	if r.Chance(1, 12) {
+		ann["traffic.sidecar.istio.io/excludeOutboundIPRanges"] = "10.1.0.0/16"
+		ann["traffic.sidecar.istio.io/kubevirtInterfaces"] = "net1"
+	}
+	if r.Chance(1, 12) {
+		ann["sidecar.istio.io/proxyCPULimit"] = "2"
+		ann["sidecar.istio.io/proxyMemoryLimit"] = "1Gi"
+	}
+	if r.Chance(1, 12) {
+		ann["proxy.istio.io/config"] = wire.Pick(r, []string{`{"statusPort": 15025}`, `{"proxyMetadata":{"ENVOY_SECURE_MERGED_METRICS_PORT":"15091"}}`,
+			`{"proxyMetadata":{"VERIF_META":"x"}}`, `{"drainDuration":"10s","terminationDrainDuration":"7s"}`,
+			`{"tracing":{"zipkin":{"address":"zipkin.x:9411"}}}`, `{"image":{"imageType":"distroless"}}`})
+	}
+	if r.Chance(1, 15) {
+		ann["sidecar.istio.io/enableCoreDump"] = "true"
+	}
+	if r.Chance(1, 15) {
+		ann["sidecar.istio.io/privileged"] = "true"
+	}
+	if r.Chance(1, 15) {
+		ann["istio.io/reroute-virtual-interfaces"] = "net1"
 	}
 	if r.Chance(1, 10) {
 		// an overrides annotation present before the first injection (a pod that was injected, had its status
